@@ -639,8 +639,8 @@ func c08ValueAccess(c *Ctx, p *Prog) {
 		return
 	}
 	allowed := map[string]string{
-		"(benchproc.Key).Get":         "the accessor itself: returns \"\" beyond the stored values (C08/R7)",
-		"(benchproc.Key).string":      "prints each field; skipping a trimmed field per field is checked below",
+		"(benchproc.Key).Get":           "the accessor itself: returns \"\" beyond the stored values (C08/R7)",
+		"(benchproc.Key).string":        "prints each field; skipping a trimmed field per field is checked below",
 		"(*benchproc.keyNode).equalRow": "compares the stored values with a row of the same (trimmed) length",
 	}
 	n := 0
